@@ -1,13 +1,25 @@
 use super::*;
 use std::collections::HashSet;
 
+/// Compile a lig/kern program.
+///
+/// An instruction whose skip byte is larger than 128 (an "unconditional stop": the
+/// boundary char carrier at location 0, the left boundary char entrypoint at the end of
+/// the table, or an entrypoint redirect) can be reached by a chain of instructions
+/// if the previous instruction does not stop.
+/// TeX never lets such an instruction match and ends the chain there (TeX.2021.1039).
+/// TFtoPL instead interprets it as a regular lig/kern instruction - the "phantom ligature bug".
+/// If `tftopl_phantom_ligatures` is true the TFtoPL behavior is reproduced;
+/// this is only wanted when generating the warnings that TFtoPL generates.
 pub fn compile(
     program: &lang::Program,
     design_size: FixWord,
     kerns: &[FixWord],
     entry_points: &HashMap<Char, u16>,
+    tftopl_phantom_ligatures: bool,
 ) -> (CompiledProgram, Vec<InfiniteLoopError>) {
-    let pair_to_instruction = build_node_to_program_start_map(program, entry_points);
+    let pair_to_instruction =
+        build_node_to_program_start_map(program, entry_points, tftopl_phantom_ligatures);
     let (replacements, infinite_loop_errors) =
         calculate_replacements(program, design_size, kerns, pair_to_instruction);
     let program = CompiledProgram {
@@ -113,6 +125,7 @@ impl std::fmt::Display for LeftChar {
 fn build_node_to_program_start_map(
     program: &lang::Program,
     entry_points: &HashMap<Char, u16>,
+    tftopl_phantom_ligatures: bool,
 ) -> HashMap<Node, usize> {
     let mut result = HashMap::<Node, usize>::new();
     let all_entry_points = entry_points
@@ -134,6 +147,15 @@ fn build_node_to_program_start_map(
                 }
                 Some(instruction) => instruction,
             };
+            if !tftopl_phantom_ligatures
+                && matches!(
+                    instruction.operation,
+                    lang::Operation::EntrypointRedirect(_, _)
+                )
+            {
+                // Unconditional stop: matches no character and ends the chain (TeX.2021.1039).
+                break;
+            }
             next_instruction = instruction
                 .next_instruction
                 .map(|increment| next + 1 + (increment as usize));
@@ -518,7 +540,7 @@ mod tests {
             ..Default::default()
         };
         let (compiled_program, infinite_loop_error_or) =
-            compile(&program, FixWord::ONE, &vec![], &entry_points);
+            compile(&program, FixWord::ONE, &vec![], &entry_points, false);
         assert!(infinite_loop_error_or.is_empty(), "no infinite loop errors");
 
         let mut got: HashMap<(Option<Char>, Char), Replacement> = Default::default();
